@@ -107,6 +107,7 @@ pub enum Cmd {
 }
 pub struct Case {
     threads: usize,
+    delays: Option<(u64, u32, u32)>,
     t0: i64,
     tol: Option<i64>,
     models: Vec<MSpec>,
@@ -333,7 +334,23 @@ pub fn parse(words: &[&str]) -> Case {
         t: words.to_vec(),
         i: 0,
     };
-    let threads = p.us();
+    // "<threads>" or "<threads>d<seed>[p<permille>][u<max_us>]": seeded delays at the executor's
+    // protocol points (nexosim::verif, cfg nexosim_verif)
+    let tok = p.next().to_string();
+    let (threads, delays) = match tok.split_once('d') {
+        None => (tok.parse::<usize>().unwrap(), None),
+        Some((t, rest)) => {
+            let (rest, us) = match rest.split_once('u') {
+                Some((a, b)) => (a, b.parse::<u32>().unwrap()),
+                None => (rest, 100),
+            };
+            let (seed, pm) = match rest.split_once('p') {
+                Some((a, b)) => (a.parse::<u64>().unwrap(), b.parse::<u32>().unwrap()),
+                None => (rest.parse::<u64>().unwrap(), 250),
+            };
+            (t.parse::<usize>().unwrap(), Some((seed, pm, us)))
+        }
+    };
     let _fuel = p.int();
     let t0 = p.int();
     let tol = p.opt_i();
@@ -362,6 +379,7 @@ pub fn parse(words: &[&str]) -> Case {
     });
     Case {
         threads,
+        delays,
         t0,
         tol,
         models,
@@ -818,6 +836,16 @@ fn drain(log: &Log) -> String {
 }
 
 pub fn run(case: &Case) -> String {
+    match case.delays {
+        Some((seed, pm, us)) => nexosim::verif::set_delays(seed, pm, us, !0),
+        None => nexosim::verif::set_delays(0, 0, 0, 0),
+    }
+    let r = run_inner(case);
+    nexosim::verif::set_delays(0, 0, 0, 0);
+    r
+}
+
+fn run_inner(case: &Case) -> String {
     SM_DROPS.store(0, std::sync::atomic::Ordering::SeqCst);
     for c in NM_STATS.iter() {
         c.store(0, std::sync::atomic::Ordering::SeqCst);
